@@ -183,6 +183,8 @@ impl StateMachine<'_> {
             self.config,
         )?;
         self.painter.merge_conflict_lines.clear();
+        // The next region may have no ancestor section (or no named commits).
+        self.painter.merge_conflict_commit_names = MergeConflictCommitNames::new();
         self.state = HunkZero(Combined(merge_parents.clone(), InMergeConflict::No), None);
         Ok(())
     }
